@@ -173,7 +173,7 @@ Bin(op, dd, aa, bb) ==
            oo == [reg |-> ef.reg, frame |-> fr, splits |-> ef.splits, segk |-> ef.segk, warm |-> FALSE]
        IN Commit(Store(h1, dd, oo),
                  [call |-> "bin", op |-> op, d |-> dd, a |-> aa, b |-> bb, res |-> ef.reg,
-                  cls |-> ClassOf(oa.reg, ob.reg)])
+                  cls |-> ClassOf(oa.reg, ob.reg), segok |-> (oa.segk /\ ob.segk)])
 
 \* ~a and -a : a fresh object (or the other singleton)
 Inv(dd, aa, how) ==
@@ -293,6 +293,11 @@ SubsetLaw ==
 
 \* simulation constraint: do not waste the first steps on singletons
 NoTrivialStart == TLCGet("level") > 3 \/ \A rr \in Regs : regs[rr] \notin {EID, WID}
+\* simulation constraint: stay inside the domain where C01 demands that operators succeed
+\* (operands meeting transversally, with predicted segmentation); degenerate operand pairs
+\* are covered by the deterministic one-step corpus
+TransversalOnly == obs.call = "bin" => (obs.cls = "T" /\ obs.segok)
+SimDomain == NoTrivialStart /\ TransversalOnly
 \* bound for simulation / exhaustive runs
 DepthBound == TLCGet("level") <= 40
 =============================================================================
